@@ -155,11 +155,7 @@ ANCHOR_BLOCK = dict(
     stmts=["start: datetime | int",
            "tz: str | None",
            "if pattern.anchor_timestamp is not None:\n"
-           "    start = datetime.fromtimestamp(pattern.anchor_timestamp, tz=pattern.zone)\n"
-           "    wall = start.replace(hour=pattern.start_seconds // 3600, minute=pattern.start_seconds % 3600 // 60, "
-           "second=pattern.start_seconds % 60)\n"
-           "    if int(wall.timestamp()) == pattern.anchor_timestamp:\n"
-           "        start = wall\n"
+           "    start = _anchor_wall_clock(pattern.anchor_timestamp, pattern.start_seconds, pattern.zone)\n"
            "    tz = None\n"
            "else:\n"
            "    start = pattern.start_seconds\n"
